@@ -363,6 +363,10 @@ func emitCall(w *bufio.Writer, sc *scenario, id, reps int, kind, extra string) {
 		}
 	}
 	fmt.Fprintf(w, "end\n")
+	// every third scenario: probes that involve a second function object or option-less calls
+	if id%3 == 0 && kind == "call" {
+		fmt.Fprintf(w, "scn probe %d\nsibling %s\nbare %s\nend\n", id, siblingProbe(sc, sc.callArgs(false)), bareProbe(sc))
+	}
 	w.Flush()
 }
 
@@ -591,6 +595,10 @@ func genAffinity(r *rng, c genCfg) (*scenario, string) {
 	sc.Funcs = append(sc.Funcs, target)
 	vid := 1
 	sc.Opts = append(sc.Opts, optSpecC{Kind: "named", Name: n, Ty: T, Vid: vid})
+	if r.chance(1, 3) {
+		// family B with the same-named value supplied under a subtype (the name-using converter takes it without)
+		sc.Opts[len(sc.Opts)-1] = optSpecC{Kind: "namedsub", Name: n, Ty: T, Vid: vid, Sub: []string{"foo", "bar"}[r.intn(2)]}
+	}
 	var extra string
 	if r.chance(1, 2) {
 		// family A: one converter with a type-only input, several same-typed named inputs; one to three
@@ -605,8 +613,12 @@ func genAffinity(r *rng, c genCfg) (*scenario, string) {
 		sc.Opts = nil
 		vid = 0
 		var wants []string
+		psub := ""
+		if r.chance(1, 4) && target.Form != "pos" {
+			psub = []string{"x", "y"}[r.intn(2)] // the named parameters themselves carry a subtype
+		}
 		for _, pn := range pnames {
-			target.Ins = append(target.Ins, lab{Name: pn, Ty: S})
+			target.Ins = append(target.Ins, lab{Name: pn, Ty: S, Sub: psub})
 			vid++
 			o := optSpecC{Kind: "named", Name: pn, Ty: T, Vid: vid}
 			if r.chance(1, 4) { // the matching input carries a subtype, the parameter does not
